@@ -371,18 +371,30 @@ func init() {
 		o := a[0].(*Value)
 		p.yield("once")
 		if p.onceDone[o] {
+			if p.raceOn() {
+				p.raceAcquire(p.rs().onces, o)
+			}
 			return nil
 		}
 		if p.onceRunning[o] {
 			// another goroutine is inside f: Do returns only after f has returned
 			p.waitUntil(func() bool { return p.onceDone[o] }, "sync.Once.Do", pos)
+			if p.raceOn() {
+				p.raceAcquire(p.rs().onces, o)
+			}
 			return nil
 		}
 		if p.multi() {
 			p.onceRunning[o] = true
 			func() {
 				// Go marks the Once done even when f panics
-				defer func() { p.onceDone[o] = true; delete(p.onceRunning, o) }()
+				defer func() {
+					if p.raceOn() {
+						p.raceRelease(p.rs().onces, o)
+					}
+					p.onceDone[o] = true
+					delete(p.onceRunning, o)
+				}()
 				p.call(nil, pos, a[1], nil)
 			}()
 			return nil
@@ -405,6 +417,9 @@ func init() {
 	})
 	M("(*sync.WaitGroup).Done", func(p *Path, a []Value, pos token.Pos) Value {
 		w := a[0].(*Value)
+		if p.raceOn() {
+			p.raceRelease(p.rs().wgs, w)
+		}
 		p.wgCount[w]--
 		if p.wgCount[w] < 0 {
 			p.targetPanicStr("sync: negative WaitGroup counter")
@@ -414,6 +429,9 @@ func init() {
 	M("(*sync.WaitGroup).Wait", func(p *Path, a []Value, pos token.Pos) Value {
 		w := a[0].(*Value)
 		p.waitUntil(func() bool { return p.wgCount[w] == 0 }, "WaitGroup.Wait", pos)
+		if p.raceOn() {
+			p.raceAcquire(p.rs().wgs, w)
+		}
 		return nil
 	})
 	M("(*sync.WaitGroup).Go", func(p *Path, a []Value, pos token.Pos) Value {
@@ -501,15 +519,18 @@ func init() {
 		}
 		M("sync/atomic.Load"+ty, func(p *Path, a []Value, pos token.Pos) Value {
 			p.yield("atomic")
+			p.raceAtomic(a[0])
 			return copyVal(*derefPtr(p, a[0]))
 		})
 		M("sync/atomic.Store"+ty, func(p *Path, a []Value, pos token.Pos) Value {
 			p.yield("atomic")
+			p.raceAtomic(a[0])
 			*derefPtr(p, a[0]) = a[1]
 			return nil
 		})
 		M("sync/atomic.Swap"+ty, func(p *Path, a []Value, pos token.Pos) Value {
 			p.yield("atomic")
+			p.raceAtomic(a[0])
 			ptr := derefPtr(p, a[0])
 			old := *ptr
 			*ptr = a[1]
@@ -517,6 +538,7 @@ func init() {
 		})
 		M("sync/atomic.CompareAndSwap"+ty, func(p *Path, a []Value, pos token.Pos) Value {
 			p.yield("atomic")
+			p.raceAtomic(a[0])
 			ptr := derefPtr(p, a[0])
 			eq := p.equals(gt, *ptr, a[1])
 			if p.branch(eq, "cas") {
@@ -528,6 +550,7 @@ func init() {
 		if gt != nil {
 			M("sync/atomic.Add"+ty, func(p *Path, a []Value, pos token.Pos) Value {
 				p.yield("atomic")
+			p.raceAtomic(a[0])
 				ptr := derefPtr(p, a[0])
 				nv := p.binop(token.ADD, gt, *ptr, a[1], gt, pos)
 				*ptr = nv
@@ -587,6 +610,9 @@ func (p *Path) lock(m *Value, read bool, pos token.Pos) {
 		return p.locks[m] == 0
 	}
 	p.waitUntil(can, "mutex lock", pos)
+	if p.raceOn() {
+		p.raceAcquire(p.rs().locks, m)
+	}
 	if read {
 		p.locks[m]++
 	} else {
@@ -596,6 +622,9 @@ func (p *Path) lock(m *Value, read bool, pos token.Pos) {
 }
 
 func (p *Path) unlock(m *Value, read bool) {
+	if p.raceOn() {
+		p.raceRelease(p.rs().locks, m)
+	}
 	if read {
 		if p.locks[m] <= 0 {
 			p.fatal("sync: RUnlock of unlocked RWMutex")
